@@ -238,6 +238,16 @@ def _aslist(v):
     return v
 
 
+def _call_kw(case, run, sim):
+    """keyword arguments of one run; with "defaults" every option the library has a default for
+    is left out (in the stream AND in the single-result call: identical arguments)"""
+    if run.get("defaults"):
+        return dict(timeout=0, scorer=sim)
+    return dict(timeout=0, max_stack_depth=run["depth"], scorer=sim,
+                relative_match_len=case.get("relative_match_len", 1.0),
+                latent_time=run.get("latent", False))
+
+
 def _stream(lib, case, run, kw_extra=None):
     """One simulated run: pull the stream step by step under the scheduler."""
     ts = parse_ts(case["ts"])
@@ -251,10 +261,7 @@ def _stream(lib, case, run, kw_extra=None):
     with (contextlib.nullcontext() if run.get("light")
           else Snapshots(lib, sink, trace, run.get("skip_prefilter", False))):
         try:
-            gen = lib["ctparse"].ctparse_gen(
-                case["text"], ts, timeout=0, max_stack_depth=run["depth"], scorer=sim,
-                relative_match_len=case.get("relative_match_len", 1.0),
-                latent_time=run.get("latent", False))
+            gen = lib["ctparse"].ctparse_gen(case["text"], ts, **_call_kw(case, run, sim))
             for c in gen:
                 # pure: nothing yielded earlier may have changed (every step for short
                 # streams, every 64th step for long ones, and once more at the end)
@@ -286,10 +293,7 @@ def _single(lib, case, run):
     ts = parse_ts(case["ts"])
     sim = _mk_sim(run["sched"], lib["ctparse"]._DEFAULT_SCORER, case.get("budget", 0))
     try:
-        r = lib["ctparse"].ctparse(
-            case["text"], ts, timeout=0, max_stack_depth=run["depth"], scorer=sim,
-            relative_match_len=case.get("relative_match_len", 1.0),
-            latent_time=run.get("latent", False))
+        r = lib["ctparse"].ctparse(case["text"], ts, **_call_kw(case, run, sim))
     except BudgetExceeded:
         return None, "budget"
     except Exception as e:
@@ -338,7 +342,8 @@ def execute(case):
     base_sets = {}
 
     for run in case["runs"]:
-        tag = "%s/d%d%s%s" % (_sched_tag(run["sched"]), run["depth"],
+        tag = "%s/d%d%s%s%s" % (_sched_tag(run["sched"]), run["depth"],
+                              "/defaults" if run.get("defaults") else "",
                               "/latent" if run.get("latent") else "",
                               "/noprefilter" if run.get("skip_prefilter") else "")
         r = _stream(lib, case, run)
@@ -648,7 +653,10 @@ def _texts(rng, n, prop="C15"):
             j = rng.choice(["-", "to", "und", "and", "bis", "at", "on", "am", "from"])
             v = rng.choice([workload.CLOCKS, workload.DATES, workload.DOMS, workload.DOWS])
             t = "%s %s %s %s" % (j, rng.choice(v), j, rng.choice(v))
-            if rng.random() < 0.3:
+            if rng.random() < 0.4:
+                # ... or dangling at the END (the last occurrence is the unusable one)
+                t = "%s %s %s %s" % (rng.choice(v), j, rng.choice(v), j)
+            elif rng.random() < 0.3:
                 t = "%s %s %s %s %s" % (j, rng.choice(workload.DOWS), rng.choice(v), j,
                                         rng.choice(v))
         elif r < 0.845:
@@ -752,6 +760,10 @@ def plan(prop, tier, seed):
             for s in scheds:
                 runs.append({"sched": s, "depth": rng.choice([0, 0, 1, 3, 10]),
                              "latent": rng.random() < 0.4})
+            # every option left at the library's default, in both entry points (the defaults
+            # are: depth 10, anchoring on, relative_match_len 1.0)
+            for s in rng.sample(scheds[:3], 2):
+                runs.append({"sched": s, "depth": 10, "latent": True, "defaults": True})
         c = {"prop": prop, "text": text, "ts": fmt_ts(ts), "runs": runs,
              "cap": STATE_CAP[tier], "budget": BUDGET[tier]}
         if rng.random() < 0.15:
